@@ -331,10 +331,11 @@ Section Flat.
       apply (key_ok_spec ad k (Gk k (in_or_app _ _ _ (or_introl Hk)))).
   Qed.
 
-  Theorem flat_names_agree n : name_ok ad n (model_nobs c n) = true.
+  Theorem flat_names_agree n : n <> "" -> name_ok ad n (model_nobs c n) = true.
   Proof.
+    intros Hn0. apply String.eqb_neq in Hn0.
     destruct G_parts as [ND [Gk _]].
-    unfold name_ok, model_nobs, accepted, resolves, cli_run. cbn [o_contains o_getitem o_parser o_ran].
+    unfold name_ok, model_nobs, accepted, resolves, cli_run. rewrite Hn0. unfold cli_token. cbn [o_contains o_getitem o_parser o_ran].
     rewrite parser_flat. unfold preg_primary. cbn [fst snd].
     assert (has_key n (map (fun kt => (fst kt, t_id (snd kt))) tasks) = has_key n tasks) as Hh.
     { unfold has_key. rewrite (assoc_map_key t_id n tasks). destruct (assoc n tasks); reflexivity. }
